@@ -56,6 +56,18 @@ theorem gen_process_make_signer_request_eq_model (p : Proxy) (n : Nonce) :
   unfold KM.Gen.TrustAnchorProxy.process_make_signer_request process
   cases p.openNonce <;> rfl
 
+/-- `TrustAnchorProxy::process_give_child_response` as translated = the `giveChildResponse` arm: a response is
+handed over only while the proxy holds one for that child and key – otherwise the command is REFUSED, which is what
+makes a second, overlapping delivery fail ("delivered to that child exactly once", `exactly_once`). -/
+theorem gen_process_give_child_response_eq_model (p : Proxy) (c : Child) (k : Key) :
+    KM.Gen.TrustAnchorProxy.process_give_child_response (C := Unit) (ε := Err) (α := List Ev)
+      (if p.known c then .ok () else .error .childUnknown) (fun _ => ahas p.openResp (c, k))
+      [.childResponseGiven c k] .noResponse = process p (.giveChildResponse c k) := by
+  unfold KM.Gen.TrustAnchorProxy.process_give_child_response process
+  cases hk : p.known c
+  · simp [hk]
+  · cases ho : ahas p.openResp (c, k) <;> simp [hk, ho]
+
 /-- Hence the generated body accepts exactly under the three conditions of the property. -/
 theorem gen_accepts_iff (p : Proxy) (m : Signed RespBody) :
     (∃ evs, genSignerResponse p m = .ok evs) ↔
